@@ -29,7 +29,7 @@ def owns(problem, rec):
 def model(chk, p):
     w = vlib.workdir("c01-cfg")
     consts = dict(lang.PARSER_REPAIRED, K=p["K"], KMin=0, LeafSet=p["leaves"], OpSet='"arith"', LayoutSet=p["layouts"], Emit="TRUE",
-                  ZeroPowEarlyExit="FALSE", ZeroEntriesKept="FALSE")
+                  ZeroPowEarlyExit="FALSE", ZeroEntriesKept="FALSE", Temperature="FALSE")
     cfg = lang.mc_cfg(os.path.join(w, "mc.cfg"), consts=consts,
                       invariants=["RenderParses", "ParserRefines", "ValueLayers", "DzPropagates", "EmitInv"])
     t = tlc("MC_Eval", cfg, workers=12, timeout=3000, xmx="12g")
